@@ -38,7 +38,7 @@ func props() []prop {
 			Assumptions: with("virtual time (testing/synctest); global math/rand pinned per scenario for replay"),
 			Units: []unit{
 				{Check: "gossipsim", Pkg: "internal/cluster", Shards: [2]int{16, 16}, Timeout: [2]time.Duration{10 * min, 60 * min}, CrashKey: "c18-crash", OnlyKinds: []string{"c18-", "harness-"}},
-				{Check: "gossipreal", Pkg: "internal/cluster", Shards: [2]int{1, 1}, Timeout: [2]time.Duration{10 * min, 10 * min}, CrashKey: "c18-crash", OnlyKinds: []string{"c18-", "harness-"}},
+				{Check: "gossipreal", Pkg: "internal/cluster", Shards: [2]int{2, 2}, Timeout: [2]time.Duration{10 * min, 10 * min}, CrashKey: "c18-crash", OnlyKinds: []string{"c18-", "harness-"}},
 			},
 		},
 		{
@@ -116,7 +116,7 @@ func props() []prop {
 			DesignRef:   "DESIGN.md §4 C07",
 			Assumptions: with("cancelling the system context before Start is not asserted beyond 'no hang'"),
 			Units: []unit{
-				{Check: "startstopnet", Pkg: "internal/actor", Shards: [2]int{5, 5}, Timeout: [2]time.Duration{10 * min, 40 * min}, CrashKey: "c07-crash", HangKind: "c07-hang", OnlyKinds: []string{"c07-", "harness-"}},
+				{Check: "startstopnet", Pkg: "internal/actor", Shards: [2]int{6, 6}, Timeout: [2]time.Duration{10 * min, 40 * min}, CrashKey: "c07-crash", HangKind: "c07-hang", OnlyKinds: []string{"c07-", "harness-"}},
 				{Check: "startstop", Pkg: "internal/actor", Shards: [2]int{8, 16}, Timeout: [2]time.Duration{6 * min, 40 * min}, CrashKey: "c07-crash", HangKind: "c07-hang", OnlyKinds: []string{"c07-", "harness-"}},
 				{Check: "startstopinject", Pkg: "internal/actor", Instr: []string{"internal/actor/system.go"}, Shards: [2]int{8, 16}, Timeout: [2]time.Duration{6 * min, 40 * min}, CrashKey: "c07-crash", HangKind: "c07-hang", OnlyKinds: []string{"c07-", "harness-"}},
 			},
@@ -194,6 +194,7 @@ func props() []prop {
 			Units: []unit{
 				{Check: "histories", Pkg: "internal/actor", Shards: [2]int{8, 16}, Timeout: [2]time.Duration{6 * min, 40 * min}, CrashKey: "c03-crash", OnlyKinds: []string{"c03-", "harness-"}},
 				{Check: "supmatrix", Pkg: "internal/actor", Shards: [2]int{8, 16}, Timeout: [2]time.Duration{5 * min, 30 * min}, OnlyKinds: []string{"c03-"}},
+				{Check: "unstuck", Pkg: "internal/actor", Shards: [2]int{8, 16}, Timeout: [2]time.Duration{5 * min, 30 * min}, OnlyKinds: []string{"c03-"}},
 				{Check: "mailboxsched", Pkg: "internal/mailbox", Instr: []string{"internal/mailbox/unbounded_mailbox.go"}, Shards: [2]int{8, 16}, Timeout: [2]time.Duration{5 * min, 40 * min}, OnlyKinds: []string{"lost-message", "lost-wakeup", "duplicate-delivery"}},
 			},
 		},
